@@ -187,6 +187,16 @@ func (w *Worker) Open(ctx context.Context) (err error) {
 		r.Append(func() error {
 			return task.Close(ctx)
 		})
+		if task == w.FirstTask.Task {
+			// Closing the source task does not tear the source down, that is
+			// done by the worker (see tearDownSource). Without this a source
+			// that was opened here stays open (plugin running, connector marked
+			// as running) when a later task or the DLQ fails to open: nobody
+			// calls Stop or Close on a worker that failed to open.
+			r.Append(func() error {
+				return w.tearDownSource(ctx)
+			})
+		}
 	}
 
 	err = w.DLQ.Open(ctx)
